@@ -151,6 +151,60 @@ func (f *fakeCC) DisconnectClient(int64) error                                  
 func (f *fakeCC) DisconnectClientIfMatch(int64, string, string) (bool, error)   { return false, nil }
 func (f *fakeCC) EnsureClientOnline(int64, string, string, string, string, string) error { return nil }
 
+// ---- Redis servers and clients are reused across cases (a fresh listener and fresh client
+// connections per case exhaust the ephemeral ports of a shared machine)
+
+type redisPool struct {
+	mr      *miniredis.Miniredis
+	ctx     context.Context
+	clients []storage.Storage
+}
+
+var (
+	poolMu    sync.Mutex
+	freePools []*redisPool
+)
+
+func acquireRedis() (*redisPool, error) {
+	poolMu.Lock()
+	if n := len(freePools); n > 0 {
+		p := freePools[n-1]
+		freePools = freePools[:n-1]
+		poolMu.Unlock()
+		p.mr.FlushAll()
+		return p, nil
+	}
+	poolMu.Unlock()
+	mr, err := miniredis.Run()
+	if err != nil {
+		return nil, err
+	}
+	return &redisPool{mr: mr, ctx: context.Background()}, nil
+}
+
+func releaseRedis(p *redisPool) {
+	p.mr.FlushAll()
+	poolMu.Lock()
+	freePools = append(freePools, p)
+	poolMu.Unlock()
+}
+
+func (p *redisPool) client(i int) (storage.Storage, error) {
+	for len(p.clients) <= i {
+		c, err := storage.NewRedisStorage(p.ctx, &storage.RedisConfig{Addr: p.mr.Addr()})
+		if err != nil {
+			return nil, err
+		}
+		p.clients = append(p.clients, c)
+	}
+	return p.clients[i], nil
+}
+
+// keepOpen shields a reused Redis client from the Close of a per-case tiered store.
+type keepOpen struct{ storage.Storage }
+
+func (keepOpen) Close() error { return nil }
+
 // ---- environment of one case
 
 type env struct {
@@ -158,6 +212,7 @@ type env struct {
 	ctx     context.Context
 	cancel  context.CancelFunc
 	mr      *miniredis.Miniredis
+	pool    *redisPool
 	tables  []*tunnel.RoutingTable
 	stores  []*countStore
 	sms     []*session.SessionManager
@@ -167,10 +222,6 @@ type env struct {
 	elapsed time.Duration // model time since start
 	drift   time.Duration // worst lateness of a time-sensitive call
 	timed   bool
-}
-
-func (e *env) redisStore() (storage.Storage, error) {
-	return storage.NewRedisStorage(e.ctx, &storage.RedisConfig{Addr: e.mr.Addr()})
 }
 
 func newEnv(backend string, ttls []int) (*env, error) {
@@ -185,30 +236,30 @@ func newEnv(backend string, ttls []int) (*env, error) {
 	case "dblBytes":
 		shared = &dblStore{Storage: storage.NewMemoryStorage(e.ctx), mode: "bytes"}
 	case "redis", "hybridRedis":
-		mr, err := miniredis.Run()
+		p, err := acquireRedis()
 		if err != nil {
 			return nil, err
 		}
-		e.mr = mr
+		e.pool, e.mr = p, p.mr
 	case "hybridLocal":
 	default:
 		return nil, fmt.Errorf("unknown backend %s", backend)
 	}
-	for _, ttl := range ttls {
+	for i, ttl := range ttls {
 		var st storage.Storage
 		switch backend {
 		case "redis":
-			r, err := e.redisStore()
+			r, err := e.pool.client(i)
 			if err != nil {
 				return nil, err
 			}
 			st = r
 		case "hybridRedis":
-			r, err := e.redisStore()
+			r, err := e.pool.client(i)
 			if err != nil {
 				return nil, err
 			}
-			st = storage.NewHybridStorageWithSharedCache(e.ctx, storage.NewMemoryStorage(e.ctx), r, nil, nil)
+			st = storage.NewHybridStorageWithSharedCache(e.ctx, storage.NewMemoryStorage(e.ctx), keepOpen{r}, nil, nil)
 		case "hybridLocal":
 			st = storage.NewHybridStorage(e.ctx, storage.NewMemoryStorage(e.ctx), nil, nil)
 		default:
@@ -225,6 +276,15 @@ func newEnv(backend string, ttls []int) (*env, error) {
 }
 
 func (e *env) close() {
+	// let every lifecycle goroutine finish its cleanup before the (reused) Redis server goes to the next case
+	for n, sm := range e.sms {
+		if sm == nil {
+			continue
+		}
+		for _, tid := range sm.VerifBridgeIDs() {
+			e.endBridge(n, tid)
+		}
+	}
 	for _, sm := range e.sms {
 		if sm != nil {
 			sm.Close()
@@ -234,8 +294,8 @@ func (e *env) close() {
 		c.Close()
 	}
 	e.cancel()
-	if e.mr != nil {
-		e.mr.Close()
+	if e.pool != nil {
+		releaseRedis(e.pool)
 	}
 }
 
@@ -250,6 +310,26 @@ func (e *env) sm(n int) *session.SessionManager {
 		e.sms[n] = sm
 	}
 	return e.sms[n]
+}
+
+// endBridge closes the bridge and waits until runBridgeLifecycle has removed it from the map and
+// has issued the removal of the routing record.
+func (e *env) endBridge(n int, tid string) string {
+	sm := e.sms[n]
+	key := "tunnox:tunnel_waiting:" + tid
+	before := e.stores[n].count(key)
+	sm.VerifCloseBridge(tid)
+	deadline := time.Now().Add(3 * time.Second)
+	for sm.VerifHasBridge(tid) && time.Now().Before(deadline) {
+		time.Sleep(200 * time.Microsecond)
+	}
+	if sm.VerifHasBridge(tid) {
+		return "err:bridge_not_removed"
+	}
+	if tid != "" {
+		e.stores[n].waitAbove(key, before, 1500*time.Millisecond)
+	}
+	return "ok"
 }
 
 // touch records how late (in real time) a time-sensitive call runs compared with model time.
@@ -385,21 +465,7 @@ func (e *env) exec(tok string) string {
 		if !sm.VerifHasBridge(tid) {
 			return "skip"
 		}
-		key := "tunnox:tunnel_waiting:" + tid
-		before := e.stores[n].count(key)
-		sm.VerifCloseBridge(tid)
-		// the lifecycle goroutine removes the bridge and then the routing record
-		deadline := time.Now().Add(3 * time.Second)
-		for sm.VerifHasBridge(tid) && time.Now().Before(deadline) {
-			time.Sleep(200 * time.Microsecond)
-		}
-		if sm.VerifHasBridge(tid) {
-			return "err:bridge_not_removed"
-		}
-		if tid != "" {
-			e.stores[n].waitAbove(key, before, 1500*time.Millisecond)
-		}
-		return "ok"
+		return e.endBridge(n, tid)
 	case "adv", "advw", "advs":
 		ms, err := strconv.Atoi(f[1])
 		if err != nil {
